@@ -1,10 +1,15 @@
 (* Props/C08.v -- "rich text behaves like a string of (character, markup) pairs".
    Only statements, each closed by `exact <lemma>`, its assumptions printed, and Examples.
-   `flat t` is what the tracing back end renders: the sequence of (atom, markup stack) pairs.
-   `erase` forgets the `external` flag of hyperlinks (which the code loses: finding F10, see the
-   `_refuted` statements) and reads the deprecated tag name "emph" as "em". *)
+   `flat t` is what the tracing back end renders: the sequence of (atom, markup stack) pairs,
+   markup = MTag name | MHRef url external | MProt.
+   `wf t` (Spec/FlatOps.v): no Tag inside t carries the deprecated name "emph" -- the constructor
+   renames it to "em", so every text the API can build is well-formed (`ctor_flat`, `ops_compose`
+   return well-formed values from any parts).  The exact theorems are stated for well-formed
+   texts; the `_any` versions hold for arbitrary trees up to `erase`, which does nothing but read
+   the tag name "emph" as "em" (the `external` flag of hyperlinks is NOT erased any more:
+   defect F10 is fixed by 8ee055e). *)
 From Pybtex Require Import Base.Prelude Base.PyChar Base.PyStr Model.RtTypes Model.RichText
-  Spec.Flat Spec.FlatOps Proofs.RichText Proofs.RichSlice Proofs.RichOps Proofs.RichEq.
+  Spec.Flat Spec.FlatOps Proofs.RichText Proofs.RichSlice Proofs.RichOps Proofs.RichEq Proofs.RichWf Proofs.RichObs Proofs.RichSplit Proofs.RichInj.
 
 (* len(text) is the number of (character, markup) pairs of the rendering *)
 Theorem len_flat : forall t, rlen t = length (flat t).
@@ -16,61 +21,69 @@ Theorem str_flat : forall t, rstr t = flat_str (flat t).
 Proof. exact str_flat_lem. Qed.
 Print Assumptions str_flat.
 
+(* on well-formed texts erase is the identity *)
+Theorem erase_wf : forall t, wf t -> erase (flat t) = flat t.
+Proof. exact wf_flat. Qed.
+Print Assumptions erase_wf.
+
 (* construction from nested parts: whatever the grouping/nesting/emptiness of the parts, the
-   constructor succeeds and renders as the concatenation of the parts inside its markup *)
-Theorem ctor_flat_partial : forall k raw, exists v, mkc k raw = Ok v /\
+   constructor terminates and renders exactly as the concatenation of the parts inside its markup *)
+Theorem ctor_flat : forall k raw, Forall wf raw -> exists v, mkc k raw = Ok v /\ wf v /\
+  flat v = pushk_e k (concat (map flat raw)).
+Proof. exact ctor_flat_x. Qed.
+Print Assumptions ctor_flat.
+
+Theorem ctor_flat_any : forall k raw, exists v, mkc k raw = Ok v /\
   erase (flat v) = erase (pushk k (concat (map flat raw))).
 Proof. exact ctor_flat_e. Qed.
-Print Assumptions ctor_flat_partial.
-
-(* ... but not exactly: merging two adjacent external links drops `external` (F10) *)
-Theorem ctor_flat_refuted : exists k raw v, mkc k raw = Ok v /\
-  flat v <> pushk k (concat (map flat raw)).
-Proof. exact ctor_flat_exact_refuted. Qed.
-Print Assumptions ctor_flat_refuted.
+Print Assumptions ctor_flat_any.
 
 (* upper() / lower(): every unprotected character is converted in place, protected text and
-   symbols are untouched, markup stays where it was *)
-Theorem case_flat_partial : forall up t, exists v, case_c up t = Ok v /\
+   symbols are untouched, every markup stack (external flags included) stays where it was *)
+Theorem case_flat : forall up t, wf t -> exists v, case_c up t = Ok v /\ wf v /\
+  flat v = map (conv_pair up) (flat t).
+Proof. exact case_flat_x. Qed.
+Print Assumptions case_flat.
+
+Theorem case_flat_any : forall up t, exists v, case_c up t = Ok v /\
   erase (flat v) = erase (map (conv_pair up) (flat t)).
 Proof. exact case_flat_e. Qed.
-Print Assumptions case_flat_partial.
-
-Theorem case_flat_refuted : exists up t v, case_c up t = Ok v /\
-  flat v <> map (conv_pair up) (flat t).
-Proof. exact case_flat_exact_refuted. Qed.
-Print Assumptions case_flat_refuted.
+Print Assumptions case_flat_any.
 
 (* a + b *)
-Theorem add_flat_partial : forall a b, exists v, add a b = Ok v /\
-  erase (flat v) = erase (flat a ++ flat b).
-Proof. exact add_flat_e. Qed.
-Print Assumptions add_flat_partial.
+Theorem add_flat : forall a b, wf a -> wf b -> exists v, add a b = Ok v /\ wf v /\ flat v = flat a ++ flat b.
+Proof. exact add_flat_x. Qed.
+Print Assumptions add_flat.
 
 (* t.append(x): the appended text inherits the top-level markup of the receiver *)
-Theorem append_flat_partial : forall t x, exists v, append t x = Ok v /\
-  erase (flat v) = erase (flat t ++ push_top t (flat x)).
-Proof. exact append_flat_e. Qed.
-Print Assumptions append_flat_partial.
+Theorem append_flat : forall t x, wf t -> wf x -> exists v, append t x = Ok v /\ wf v /\
+  flat v = flat t ++ push_top t (flat x).
+Proof. exact append_flat_x. Qed.
+Print Assumptions append_flat.
 
 (* sep.join(items) *)
-Theorem join_flat_partial : forall sep ps, exists v, rjoin sep ps = Ok v /\
-  erase (flat v) = erase (join_flat (flat sep) (map flat ps)).
-Proof. exact join_flat_e. Qed.
-Print Assumptions join_flat_partial.
+Theorem join_flat_thm : forall sep ps, wf sep -> Forall wf ps -> exists v, rjoin sep ps = Ok v /\ wf v /\
+  flat v = join_flat (flat sep) (map flat ps).
+Proof. exact join_flat_x. Qed.
+Print Assumptions join_flat_thm.
 
 (* text[i:j] for all optional bounds, negative, reversed, beyond the ends: exactly the Python
-   slice of the pair sequence (the stop-before-start case was defect F8, now fixed) *)
-Theorem slice_flat_partial : forall t i j, exists v, getitem_c t (KSlice i j) = Ok v /\
+   slice of the pair sequence (the stop-before-start case was defect F8, fixed) *)
+Theorem slice_flat : forall t i j, wf t -> exists v, getitem_c t (KSlice i j) = Ok v /\ wf v /\
+  flat v = pyslice (flat t) i j.
+Proof. exact slice_flat_x. Qed.
+Print Assumptions slice_flat.
+
+Theorem slice_flat_any : forall t i j, exists v, getitem_c t (KSlice i j) = Ok v /\
   erase (flat v) = pyslice (erase (flat t)) i j.
 Proof. exact slice_flat_e. Qed.
-Print Assumptions slice_flat_partial.
+Print Assumptions slice_flat_any.
 
 (* text[i] inside the bounds is the one pair s[i] ... *)
-Theorem index_flat_partial : forall t i p, pyindex (erase (flat t)) i = Some p ->
-  exists v, getitem_c t (KInt i) = Ok v /\ erase (flat v) = [p].
-Proof. exact index_flat_e. Qed.
-Print Assumptions index_flat_partial.
+Theorem index_flat : forall t i p, wf t -> pyindex (flat t) i = Some p ->
+  exists v, getitem_c t (KInt i) = Ok v /\ wf v /\ flat v = [p].
+Proof. exact index_flat_x. Qed.
+Print Assumptions index_flat.
 
 (* ... outside the bounds String and Symbol raise (IndexError) like str ... *)
 Theorem index_leaf_out_of_range : forall t i, is_multipart t = false -> pyindex (flat t) i = None ->
@@ -84,26 +97,116 @@ Proof. exact index_out_of_range_refuted. Qed.
 Print Assumptions index_out_of_range_raises_refuted.
 
 (* capfirst(): the first pair is upper-cased unless protected; capitalize(): and the rest lowered *)
-Theorem capfirst_flat_partial : forall t, exists v, capfirst t = Ok v /\
-  erase (flat v) = capfirst_flat (erase (flat t)).
-Proof. exact capfirst_flat_e. Qed.
-Print Assumptions capfirst_flat_partial.
+Theorem capfirst_flat_thm : forall t, wf t -> exists v, capfirst t = Ok v /\ wf v /\
+  flat v = capfirst_flat (flat t).
+Proof. exact capfirst_flat_x. Qed.
+Print Assumptions capfirst_flat_thm.
 
-Theorem capitalize_flat_partial : forall t, exists v, capitalize t = Ok v /\
-  erase (flat v) = capitalize_flat (erase (flat t)).
-Proof. exact capitalize_flat_e. Qed.
-Print Assumptions capitalize_flat_partial.
+Theorem capitalize_flat_thm : forall t, wf t -> exists v, capitalize t = Ok v /\ wf v /\
+  flat v = capitalize_flat (flat t).
+Proof. exact capitalize_flat_x. Qed.
+Print Assumptions capitalize_flat_thm.
+
+(* markup stays attached to the characters it was attached to: for every operation the sequence
+   of markup stacks (tags, hyperlinks with their external flag, protection) of the result is the
+   string operation applied to the sequence of stacks of the operands *)
+Theorem markup_preserved_by_every_op : forall t, wf t ->
+  (forall up v, case_c up t = Ok v -> stacks (flat v) = stacks (flat t)) /\
+  (forall v, capfirst t = Ok v -> stacks (flat v) = stacks (flat t)) /\
+  (forall v, capitalize t = Ok v -> stacks (flat v) = stacks (flat t)) /\
+  (forall i j v, getitem_c t (KSlice i j) = Ok v -> stacks (flat v) = pyslice (stacks (flat t)) i j) /\
+  (forall x v, wf x -> add t x = Ok v -> stacks (flat v) = stacks (flat t) ++ stacks (flat x)) /\
+  (forall x v, wf x -> append t x = Ok v ->
+     stacks (flat v) = stacks (flat t) ++ stacks (push_top t (flat x))) /\
+  (forall k v, mkc k [t] = Ok v -> stacks (flat v) = stacks (pushk_e k (flat t))).
+Proof. exact markup_preserved. Qed.
+Print Assumptions markup_preserved_by_every_op.
 
 (* histories: every expression built from the constructors, upper, lower, capitalize, capfirst,
    slices, +, append and join applied on top of one another in any way (`spec e` is defined)
-   evaluates without error, and its value carries the top-level markup and renders as the pair
-   sequence that the same operations give on plain sequences (`spec`, Spec/FlatOps.v) *)
+   evaluates without error to a well-formed text whose top-level markup and rendering are exactly
+   what the same operations give on plain pair sequences (`spec`, Spec/FlatOps.v).
+   Partial only in the operations covered: int index, add_period, abbreviate, split are not. *)
 Theorem ops_compose_partial : forall e r, spec e = Some r ->
-  exists v, eval_c e = Ok v /\ top_e v = fst r /\ erase (flat v) = snd r.
-Proof. exact ops_compose_e. Qed.
+  exists v, eval_c e = Ok v /\ wf v /\ top_markup v = fst r /\ flat v = snd r.
+Proof. exact ops_compose_x. Qed.
 Print Assumptions ops_compose_partial.
 
-(* equality: texts that compare equal render the same (up to erase), == is reflexive ... *)
+(* `needle in text`: exact when the needle lies inside one String part (that is precisely when
+   it is found), never a false positive, and -- documented limitation, finding F17 -- not found
+   when the characters span a part boundary *)
+Theorem contains_flat_partial : forall t p,
+  rcontains t p = true <-> (p = [] /\ is_multipart t = true) \/ (exists s, In s (leaves t) /\ occurs p s).
+Proof. exact contains_exact_lem. Qed.
+Print Assumptions contains_flat_partial.
+
+Theorem contains_sound : forall t p, rcontains t p = true -> occurs (map ACh p) (atoms (flat t)).
+Proof. exact contains_sound_lem. Qed.
+Print Assumptions contains_sound.
+
+Theorem contains_flat_refuted : exists t p, occurs (map ACh p) (atoms (flat t)) /\ rcontains t p = false.
+Proof. exact contains_complete_refuted. Qed.
+Print Assumptions contains_flat_refuted.
+
+(* startswith / endswith (one string or a tuple): only the first / last String leaf is asked *)
+Theorem startswith_flat_partial : forall t ps,
+  rstartswith t ps = match first_leaf t with Some s => existsb (startswith s) ps | None => false end.
+Proof. exact startswith_exact_lem. Qed.
+Print Assumptions startswith_flat_partial.
+
+Theorem startswith_sound : forall t ps, rstartswith t ps = true ->
+  exists p, In p ps /\ prefix_of (map ACh p) (atoms (flat t)).
+Proof. exact startswith_sound_lem. Qed.
+Print Assumptions startswith_sound.
+
+Theorem startswith_flat_refuted : exists t p, prefix_of (map ACh p) (atoms (flat t)) /\ rstartswith t [p] = false.
+Proof. exact startswith_complete_refuted. Qed.
+Print Assumptions startswith_flat_refuted.
+
+Theorem endswith_flat_partial : forall t ps,
+  rendswith t ps = match last_leaf t with Some s => existsb (fun p => startswith (rev s) (rev p)) ps | None => false end.
+Proof. exact endswith_exact_lem. Qed.
+Print Assumptions endswith_flat_partial.
+
+Theorem endswith_sound : forall t ps, rendswith t ps = true ->
+  exists p, In p ps /\ suffix_of (map ACh p) (atoms (flat t)).
+Proof. exact endswith_sound_lem. Qed.
+Print Assumptions endswith_sound.
+
+Theorem endswith_flat_refuted : exists t p, suffix_of (map ACh p) (atoms (flat t)) /\ rendswith t [p] = false.
+Proof. exact endswith_complete_refuted. Qed.
+Print Assumptions endswith_flat_refuted.
+
+(* split: the pieces re-assemble -- for the delimiter regex (whose delimiters are pieces) they
+   concatenate to the text; for split() nothing but unprotected whitespace disappears (order,
+   markup, protected whitespace kept), for every keep_empty_parts value; Protected is never split;
+   every piece keeps the top-level markup.  Partial: where exactly the cuts fall is not claimed --
+   at part boundaries it deviates from str.split (finding F17s, refuted statement below); string
+   separators are left to the correspondence + oracle. *)
+Theorem split_flat_partial_delim : forall t keep ps, split_c t SepDelim keep = Ok ps ->
+  concat (map (fun p => erase (flat p)) ps) = erase (flat t).
+Proof. exact split_delim_content. Qed.
+Print Assumptions split_flat_partial_delim.
+
+Theorem split_flat_partial_ws : forall t keep ps, split_c t SepNone keep = Ok ps ->
+  concat (map (fun p => erase (flat p)) ps) = drop_ws (erase (flat t)).
+Proof. exact split_ws_content. Qed.
+Print Assumptions split_flat_partial_ws.
+
+Theorem split_never_inside_protected : forall ps sep keep, split_c (RProt ps) sep keep = Ok [RProt ps].
+Proof. exact split_protected. Qed.
+Print Assumptions split_never_inside_protected.
+
+Theorem split_pieces_keep_markup : forall t sep keep ps, is_multipart t = true -> split_c t sep keep = Ok ps ->
+  Forall (fun p => top_e p = top_e t) ps.
+Proof. exact split_pieces_top. Qed.
+Print Assumptions split_pieces_keep_markup.
+
+Theorem split_no_empty_piece_refuted : exists t ps, split_c t SepNone None = Ok ps /\ exists p, In p ps /\ rlen p = 0.
+Proof. exact split_no_empty_refuted. Qed.
+Print Assumptions split_no_empty_piece_refuted.
+
+(* equality: texts that compare equal render the same, == is reflexive *)
 Theorem eq_sound : forall a b, rt_eqb a b = true -> erase (flat a) = erase (flat b).
 Proof. exact eq_sound_lem. Qed.
 Print Assumptions eq_sound.
@@ -112,10 +215,20 @@ Theorem eq_refl_all : forall a, rt_eqb a a = true.
 Proof. exact rt_eqb_refl. Qed.
 Print Assumptions eq_refl_all.
 
-(* ... but == does not see HRef.external (F10) *)
-Theorem eq_flat_refuted : exists a b, rt_eqb a b = true /\ flat a <> flat b.
-Proof. exact eq_exact_refuted. Qed.
-Print Assumptions eq_flat_refuted.
+(* converse (flat_injective): two texts in the normal form the constructor produces (`normal`,
+   Spec/FlatOps.v: parts non-empty, never a Text, normal, neighbours of different type
+   information) of the same class with the same rendering are the same text, hence == .
+   Partial: that every constructed value is normal is not proved in Coq; it is checked by the
+   oracle on every value the implementation returns. *)
+Theorem flat_injective : forall a b, normal a = true -> normal b = true -> typeinfo a = typeinfo b ->
+  flat a = flat b -> a = b.
+Proof. exact flat_injective_lem. Qed.
+Print Assumptions flat_injective.
+
+Theorem eq_complete_partial : forall a b, normal a = true -> normal b = true -> typeinfo a = typeinfo b ->
+  flat a = flat b -> rt_eqb a b = true.
+Proof. intros a b Na Nb T E. rewrite (flat_injective_lem a b Na Nb T E). exact (rt_eqb_refl b). Qed.
+Print Assumptions eq_complete_partial.
 
 (* grouping while building: an empty part, and wrapping some of the parts into a nested Text,
    change nothing in the object that is built -- hence neither == nor the rendering *)
@@ -133,8 +246,15 @@ Print Assumptions regroup_unpack_text.
 (* non-vacuity / sanity: concrete values *)
 Example ctor_example :
   mkc KText [RStr (s2l "Multi"); RTag (s2l "em") [RStr (s2l "part")]; RText [RTag (s2l "em") [RStr (s2l " "); RStr (s2l "text!")]]]
-  = Ok (RText [RStr (s2l "Multi"); RTag (s2l "em") [RStr (s2l "part text!")]]).
-Proof. vm_compute. reflexivity. Qed.
+  = Ok (RText [RStr (s2l "Multi"); RTag (s2l "em") [RStr (s2l "part text!")]])
+  /\ Forall wf [RStr (s2l "Multi"); RTag (s2l "em") [RStr (s2l "part")]; RText [RTag (s2l "em") [RStr (s2l " "); RStr (s2l "text!")]]].
+Proof. vm_compute. split; [reflexivity|repeat constructor]. Qed.
+(* external links stay external and do not merge with ordinary ones *)
+Example external_example :
+  mkc KText [RHRef (s2l "u") true [RStr (s2l "a")]; RHRef (s2l "u") true [RStr (s2l "b")]; RHRef (s2l "u") false [RStr (s2l "c")]]
+  = Ok (RText [RHRef (s2l "u") true [RStr (s2l "ab")]; RHRef (s2l "u") false [RStr (s2l "c")]])
+  /\ case_c true (RHRef (s2l "u") true [RStr (s2l "x")]) = Ok (RHRef (s2l "u") true [RStr (s2l "X")]).
+Proof. vm_compute. split; reflexivity. Qed.
 Example upper_example :
   case_c true (RText [RStr (s2l "a"); RProt [RStr (s2l "b")]; RTag (s2l "em") [RStr (s2l "c")]])
   = Ok (RText [RStr (s2l "A"); RProt [RStr (s2l "b")]; RTag (s2l "em") [RStr (s2l "C")]]).
@@ -150,18 +270,29 @@ Example slice_reversed_example :
   getitem_c (RText [RStr (s2l "abcdefgh")]) (KSlice (Some 3%Z) (Some 1%Z)) = Ok (RText []).
 Proof. vm_compute. reflexivity. Qed.
 Example index_example :
-  pyindex (erase (flat (RText [RStr (s2l "ab"); RTag (s2l "em") [RStr (s2l "c")]]))) (-1) = Some (ACh 99%N, [MTag (s2l "em")])
+  pyindex (flat (RText [RStr (s2l "ab"); RTag (s2l "em") [RStr (s2l "c")]])) (-1) = Some (ACh 99%N, [MTag (s2l "em")])
   /\ getitem_c (RText [RStr (s2l "ab"); RTag (s2l "em") [RStr (s2l "c")]]) (KInt (-1)) = Ok (RText [RTag (s2l "em") [RStr (s2l "c")]]).
 Proof. vm_compute. split; reflexivity. Qed.
-(* Text(Tag('em', 'long Cat'), 'x').capitalize()[1:].append('!') is in the domain of `spec` *)
 Example ops_example :
   spec (EAppend (ESlice (ECapitalize (EText [ETag (s2l "em") [EStr (s2l "lo Cat")]; EStr (s2l "x")])) (Some 1%Z) None) (EStr (s2l "!")))
   = Some (None, [(ACh 111%N, [MTag (s2l "em")]); (ACh 32%N, [MTag (s2l "em")]); (ACh 99%N, [MTag (s2l "em")]);
                  (ACh 97%N, [MTag (s2l "em")]); (ACh 116%N, [MTag (s2l "em")]); (ACh 120%N, []); (ACh 33%N, [])]).
 Proof. vm_compute. reflexivity. Qed.
-(* the hypotheses of regroup_unpack_text hold of the parts of every constructed Text *)
 Example regroup_example :
   mkc KText [RStr (s2l "a"); RText [RTag (s2l "em") [RStr (s2l "b")]; RStr (s2l "c")]]
   = mkc KText [RStr (s2l "a"); RTag (s2l "em") [RStr (s2l "b")]; RStr (s2l "c")]
   /\ Forall (fun p => nonempty p = true) [RTag (s2l "em") [RStr (s2l "b")]; RStr (s2l "c")].
 Proof. vm_compute. split; [reflexivity|repeat constructor]. Qed.
+Example contains_example :
+  rcontains (RText [RStr (s2l "Long cat!")]) (s2l "g c") = true /\ In (s2l "Long cat!") (leaves (RText [RStr (s2l "Long cat!")])).
+Proof. vm_compute. split; [reflexivity|now left]. Qed.
+Example split_example :
+  split_c (RText [RStr (s2l "a + "); RProt [RStr (s2l "b c")]]) SepNone None
+  = Ok [RText [RStr (s2l "a")]; RText [RStr (s2l "+")]; RText [RProt [RStr (s2l "b c")]]].
+Proof. vm_compute. reflexivity. Qed.
+(* differently grouped constructions give the same normal value *)
+Example normal_example :
+  mkc KText [RTag (s2l "em") [RStr (s2l "a")]; RText [RTag (s2l "em") [RStr (s2l "b"); RStr (s2l "")]; RStr (s2l "c")]; RStr (s2l "d")]
+  = Ok (RText [RTag (s2l "em") [RStr (s2l "ab")]; RStr (s2l "cd")])
+  /\ normal (RText [RTag (s2l "em") [RStr (s2l "ab")]; RStr (s2l "cd")]) = true.
+Proof. vm_compute. split; reflexivity. Qed.
